@@ -804,20 +804,20 @@ def check_anchor(c):
 
 _RANGE = "temperatures 60% inside the documented range (incl. 1e-3 K from either end), 40% outside by 1e-3 .. 40 K on either side; "
 STANDINS = {
-    "water_density": (gen_density, None, check_density, 300, 20000,
+    "water_density": (gen_density, None, check_density, 400, 20000,
                       "seeded: " + _RANGE + "value == Tanaka eq. (1e-9); units=default_units / the quantities module; explicit T0; arrays; "
                       "warning iff outside 0-40 degC, none with warn=False", "T in [233, 353] K"),
-    "water_viscosity": (gen_viscosity, None, check_viscosity, 300, 20000,
+    "water_viscosity": (gen_viscosity, None, check_viscosity, 400, 20000,
                         "seeded: " + _RANGE + "value == Korson eq. (1e-9); unit mode result in viscosity units == unitless cP value; eta20 given in cP, P, "
                         "Pa*s, kg/m/s, g/cm/s; arrays; warning iff outside 0-100 degC", "T in [233, 413] K"),
-    "water_self_diffusion": (gen_diffusion, None, check_diffusion, 300, 20000,
+    "water_self_diffusion": (gen_diffusion, None, check_diffusion, 400, 20000,
                              "seeded: " + _RANGE + "value == Holz eq. (1e-9) incl. err_mult perturbations; unit mode m2/s; arrays; warning iff "
                              "outside 0-100 degC", "T in [233, 413] K"),
-    "water_permittivity": (gen_permittivity, None, check_permittivity, 300, 20000,
+    "water_permittivity": (gen_permittivity, None, check_permittivity, 400, 20000,
                            "seeded: " + _RANGE + "pressure 0.5-4500 bar given in bar, Pa, kPa, MPa, atm; value == Bradley-Pitzer eq. (1e-9), result "
                            "dimensionless; backends numpy/math; warning iff T outside 0-350 degC or (T > 70 degC and P > 2000 bar), never otherwise",
                            "T in [233, 663] K, P <= 4500 bar"),
-    "sulfuric_acid_density": (gen_sulfuric, None, check_sulfuric, 300, 20000,
+    "sulfuric_acid_density": (gen_sulfuric, None, check_sulfuric, 400, 20000,
                               "seeded: " + _RANGE + "mass fraction 70% inside [0.1, 0.9], else just outside; value == Myhre polynomial (1e-9); "
                               "temperature / mass-fraction warnings iff outside; density_from_concentration(w*rho/M) == rho within 0.02 kg/m3 "
                               "(must converge for w <= 0.7 with maxiter=200; may raise NoConvergence above; maxiter=1 raises or is right), same with "
